@@ -46,7 +46,13 @@ pub mod nom {
     pub open spec fn fold_chain<'a, O, R, F: Fn(&'a str) -> IResult<&'a str, O>, H: Fn() -> R, G: Fn(R, O) -> R>(
         f: F, init: H, g: G, input: &'a str, rest: &'a str, res: R, ins: Seq<&'a str>, outs: Seq<O>, accs: Seq<R>) -> bool
     {
-        &&& outs.len() >= 1 && ins.len() == outs.len() + 1 && accs.len() == outs.len() + 1
+        &&& fold_chain_min(1, f, init, g, input, rest, res, ins, outs, accs)
+    }
+    // (the same with at least `min` applications: fold_many0 is min = 0, fold_many1 is min = 1)
+    pub open spec fn fold_chain_min<'a, O, R, F: Fn(&'a str) -> IResult<&'a str, O>, H: Fn() -> R, G: Fn(R, O) -> R>(
+        min: int, f: F, init: H, g: G, input: &'a str, rest: &'a str, res: R, ins: Seq<&'a str>, outs: Seq<O>, accs: Seq<R>) -> bool
+    {
+        &&& outs.len() >= min && ins.len() == outs.len() + 1 && accs.len() == outs.len() + 1
         &&& ins[0] == input && ins.last() == rest && accs.last() == res
         &&& init.ensures((), accs[0])
         &&& forall|i: int| 0 <= i < outs.len() ==> f.ensures((#[trigger] ins[i],), Ok((ins[i + 1], outs[i])))
@@ -56,6 +62,12 @@ pub mod nom {
     pub fn fold_many1<'a, O, R, F: Fn(&'a str) -> IResult<&'a str, O>, H: Fn() -> R, G: Fn(R, O) -> R>(f: F, init: H, g: G, input: &'a str) -> (r: IResult<&'a str, R>)
         requires forall|s: &'a str| f.requires((s,)), init.requires(()), forall|a: R, o: O| g.requires((a, o))
         ensures r matches Ok(t) ==> exists|ins: Seq<&'a str>, outs: Seq<O>, accs: Seq<R>| fold_chain(f, init, g, input, t.0, t.1, ins, outs, accs)
+    { unimplemented!() }
+    // fold_many0(f, init, g)(input): the same with zero or more applications (it never fails on an input f refuses at once)
+    #[verifier::external_body]
+    pub fn fold_many0<'a, O, R, F: Fn(&'a str) -> IResult<&'a str, O>, H: Fn() -> R, G: Fn(R, O) -> R>(f: F, init: H, g: G, input: &'a str) -> (r: IResult<&'a str, R>)
+        requires forall|s: &'a str| f.requires((s,)), init.requires(()), forall|a: R, o: O| g.requires((a, o))
+        ensures r matches Ok(t) ==> exists|ins: Seq<&'a str>, outs: Seq<O>, accs: Seq<R>| fold_chain_min(0, f, init, g, input, t.0, t.1, ins, outs, accs)
     { unimplemented!() }
     // S.len() of a str: its length in bytes, zero exactly for the empty text (rule T-STR)
     #[verifier::external_body]
